@@ -160,6 +160,17 @@ func (m *Machine) reflTypeMethod(r *ReflType, method string, args []Value) Value
 		}
 		sp := m.ld.ssaPkgs["reflect"]
 		return TupleVal{m.zero(sp.Type("Method").Type()), tFalse}
+	case "AssignableTo":
+		return mkBool(types.AssignableTo(t, reflTypeOf(args[0])))
+	case "ConvertibleTo":
+		return mkBool(types.ConvertibleTo(t, reflTypeOf(args[0])))
+	case "Implements":
+		if it, ok := reflTypeOf(args[0]).Underlying().(*types.Interface); ok {
+			return mkBool(types.Implements(t, it))
+		}
+		panic(goPanic{msg: "reflect: non-interface type passed to Type.Implements"})
+	case "Comparable":
+		return mkBool(types.Comparable(t))
 	case "NumIn":
 		return mkInt(int64(t.Underlying().(*types.Signature).Params().Len()))
 	case "In":
